@@ -312,7 +312,7 @@ func genC04(g *Gen) {
 			g.Do("bmtree.AllPaths", L(I32(T), U(from), U(to)), key)
 		}
 		// widening ops on a share of the same windows
-		if rel && from <= to && (h > 5 && g.R.Intn(3) == 0 || g.R.Intn(32) == 0) {
+		if rel && from <= to && (h > 5 && g.R.Intn(4) == 0 || g.R.Intn(32) == 0) {
 			mid := from + (to-from)/2
 			if n > 0 && g.R.Bool() {
 				// split at (or next to) a word inside the window
@@ -328,7 +328,7 @@ func genC04(g *Gen) {
 			g.Stat("split")
 			g.Do("bmtree.AllPaths/split", L(I32(T), U(from), U(mid), U(to)), k2)
 		}
-		if h <= 11 && (h > 5 && g.R.Intn(2) == 0 || g.R.Intn(32) == 0) {
+		if h <= 11 && (h > 5 && g.R.Intn(2) == 0 || g.R.Intn(32) == 0) && (rel || g.R.Bool()) {
 			k2 := ""
 			if key != "" {
 				k2 = "I" + key[1:]
@@ -387,6 +387,33 @@ func genC04(g *Gen) {
 			key = fmt.Sprintf("R/%s/%s/%s", c03Kind(T), c04HB(h), c04NB(len(S)))
 		}
 		g.Do("bmtree.Decode/roundtrip"+sfx, L(I32(T), L(xs...)), key)
+	}
+
+	// (00) the very first calls of the process for a given T: a range that ends inside the last search
+	//      value (to = the right-most leaf, exclusive; also to = 0 and to = last leaf + 1), then the whole
+	//      range and Decode - a memo of "the complete enumeration" filled by the first call shows here
+	if rel {
+		first := func(T int32) {
+			h := c04Height(T)
+			last := c04Word(h, c04Node{uint64(1)<<uint(h) - 1, h})
+			ap := func(to uint64) string { return L("0", I32(T), U(0), U(to)) }
+			bm := make([]uint64, (int(T)+63)/64)
+			for i := range bm {
+				bm[i] = ^uint64(0)
+			}
+			calls := []string{ap([]uint64{last, last, last - 1, 0, last + 1}[g.R.Intn(5)]), ap(^uint64(0)), L("1", I32(T), U64s(bm)), ap(last + 1)}
+			g.Stat("session-first")
+			g.Do("bmtree.Session", L(L(calls...)), fmt.Sprintf("Y/%s", c04HB(h)))
+		}
+		for T := int32(1); T < 1<<7; T++ {
+			first(T)
+		}
+		for k := 0; k < 40; k++ {
+			h := g.R.Range(7, 12)
+			T := int32(uint32(1)<<uint(h) | uint32(g.R.U64())&(uint32(1)<<uint(h)-1))
+			first(T)
+		}
+		g.Exhaust = append(g.Exhaust, "Session: for every T < 2^7 the first calls of the process on T: AllPaths(T,0,last leaf or +-1 or 0), AllPaths(T,0,max), Decode(T, all ones)")
 	}
 
 	// (0) held variants first thing in the run, over ascending output sizes (capacity boundaries of
